@@ -131,6 +131,21 @@ class BuildLock:
         self.f.close()
 
 
+def load_regression_corpus(pid: str):
+    """Minimised inputs that once exposed a (seeded or real) defect: corpus/regress/<pid>/*.json, written by
+    tools/mkregress.py from the replays of the seeded-change evaluations.  They run first on every check, whatever the
+    seed, so that a defect once found by the random generators stays found."""
+    d = VERIF / "corpus" / "regress" / pid
+    out = []
+    if d.is_dir():
+        for f in sorted(d.glob("*.json")):
+            try:
+                out.append(json.loads(f.read_text()))
+            except ValueError:
+                continue
+    return out
+
+
 def regenerate(res: BuildResult, needed=None):
     """Run the fail-closed translator: /repo -> coq/theories/Gen/*.v.  `needed` = names of the Gen
     files the property depends on (None = all): a refusal on another table does not concern it."""
